@@ -144,6 +144,22 @@ def install(E, bb, bv, spec_wf_name='spec_wf'):
                       z3.Or(C.is_instance(Val.oid(inner), bv.Struct), C.is_instance(Val.oid(inner), bv.Union)))
 
     # ------------------------------------------------------------ triggers
+    def nesting_of(t, names, cap=40):
+        n = 0
+        stack = [t]
+        seen = set()
+        while stack and len(seen) < cap * 10:
+            x = stack.pop()
+            k = x.get_id()
+            if k in seen:
+                continue
+            seen.add(k)
+            if z3.is_app(x):
+                if x.decl().name() in names:
+                    n += 1
+                stack.extend(x.children())
+        return n
+
     def nesting(t, cap=40):
         """number of FIdx / Perm applications inside t (matching-loop guard:
         the axioms generate index terms, which must not trigger forever)"""
@@ -263,13 +279,14 @@ def install(E, bb, bv, spec_wf_name='spec_wf'):
 
     def on_classattr(t):
         K, n = t.arg(0), t.arg(1)
-        if nesting(t) > 0:
+        if nesting_of(t, ('FIdx',)) > 0 or nesting_of(t, ('Perm', 'PermInv', 'ReqWit')) > 1:
             return
         if z3.is_app(n) and n.decl().name() == 'FName':
             # the name of field i of class b, looked up on K: K's own table, or inherited
             b, i = n.arg(0), n.arg(1)
             inr = z3.And(i >= 0, i < NF(b))
             E.axiom(z3.Implies(z3.And(C.Sub(K, b), inr), t == Val.VObj(FAttr(b, i))))
+            field_axioms(b, i)
             return
         # descriptor lookup through the struct classes K is known to extend
         for (_, c1, c2) in (E.path.ghost.get('sub_pairs', []) if E.path is not None else []):
@@ -296,4 +313,43 @@ def install(E, bb, bv, spec_wf_name='spec_wf'):
             return
         field_axioms(t.arg(0), t.arg(1))
 
-    E.triggers = {'select': on_select, 'ClassAttr': on_classattr, 'FAttr': on_fattr}
+    def on_perm(t):
+        c, j = t.arg(0), t.arg(1)
+        if nesting_of(j, ('Perm', 'PermInv', 'FIdx')) > 0:
+            return
+        inr = z3.And(j >= 0, j < NF(c))
+        E.axiom(z3.Implies(inr, z3.And(t >= 0, t < NF(c), PermInv(c, t) == j,
+                                       z3.Select(NamesOrder(c), j) == Val.VStr(FName(c, t)))))
+        field_axioms(c, t)
+
+    E.triggers = {'select': on_select, 'ClassAttr': on_classattr, 'FAttr': on_fattr, 'Perm': on_perm}
+
+    def elem_rewrite(t):
+        """iteration over a reflection table of the model: the elements in
+        their structured form (the field tuple, the field name) rather than as
+        array reads, so that kinds and names are syntactically evident"""
+        if not z3.is_app(t):
+            return None
+        d = t.decl().name()
+        if d == 'VList' and z3.is_app(t.arg(1)) and t.arg(1).decl().name() == 'FieldsArr':
+            c = t.arg(1).arg(0)
+
+            def elem(i):
+                field_axioms(c, i)
+                return I.T(tuple2(Val.VStr(FName(c, i)), FVal(c, i)))
+            return z3.simplify(t.arg(0)), elem
+        if d == 'VSet' and z3.is_app(t.arg(1)) and t.arg(1).decl().name() == 'NamesOrder':
+            c = t.arg(1).arg(0)
+
+            def elem(j):
+                p = Perm(c, j)
+                inr = z3.And(j >= 0, j < NF(c))
+                E.axiom(z3.Implies(inr, z3.And(p >= 0, p < NF(c), PermInv(c, p) == j,
+                                               z3.Select(NamesOrder(c), j) == Val.VStr(FName(c, p)))))
+                field_axioms(c, p)
+                if E.path is not None:
+                    E.path.index(p, NF(c))
+                return I.T(Val.VStr(FName(c, p)))
+            return z3.simplify(t.arg(0)), elem
+        return None
+    E.elem_rewrite = elem_rewrite
